@@ -20,7 +20,8 @@ RULE = ("kind grid: primitive cells of all lattice systems (zoo) x meshes from {
         "oracles: weights sum, documented grid q=(i+s)/n (+1/2 for even n in MP), orbit test on the mapping table, weighted sums of exactly invariant "
         "G-periodic test functions vs the full grid. kind phonon: symmetric pair-model crystal, run_mesh/IterMesh with symmetry on vs off: thermal properties, "
         "smearing DOS, moments, mean of test functions of frequencies; non-trivial = mesh with >1 point and (grid) a point group with >1 operation or a shift; "
-        "distinct = full parameter tuple")
+        "distinct = full parameter tuple; "
+        "additions of rounds 6-8: moments of orders 0-2 over frequency windows and the projected moment; dense meshes on triclinic/monoclinic/orthorhombic cells (1099-4631 irreducible points); objects built with is_symmetry=False holding force constants less symmetric than the positions")
 ASSUMPTIONS = [
     "point group of the primitive cell from the harness' own spglib call; reciprocal action q -> (W^-1)^T q",
     "tetrahedron DOS is deliberately not compared (its tetrahedra are not point-group invariant; the statement names smearing)",
